@@ -233,6 +233,24 @@ func (s *Server) latency(max time.Duration, label string) time.Duration {
 }
 
 var ErrInjectedList = errors.New("injected: list failed")
+
+// ListErrorOf is the error value a scripted list failure of that kind returns;
+// ListErrorText is what Error() of a controller stopped by it has to mention.
+func ListErrorOf(kind string) error {
+	switch kind {
+	case "error-timeout":
+		return &url.Error{Op: "Get", URL: "https://apiserver/injected-list", Err: context.DeadlineExceeded}
+	case "error-canceled":
+		return &url.Error{Op: "Get", URL: "https://apiserver/injected-list", Err: context.Canceled}
+	case "error-canceled-bare":
+		return context.Canceled
+	case "error-deadline-bare":
+		return context.DeadlineExceeded
+	}
+	return ErrInjectedList
+}
+
+func ListErrorText(kind string) string { return ListErrorOf(kind).Error() }
 var ErrInjectedWatch = errors.New("injected: watch connect refused")
 
 func sleepCtx(ctx context.Context, d time.Duration) bool {
@@ -321,10 +339,11 @@ func (s *Server) List(ctx context.Context, opts metav1.ListOptions) (runtime.Obj
 	case "error":
 		call.Outcome = "error"
 		return nil, ErrInjectedList
-	case "error-timeout":
-		// a failed list is fatal whatever the error value looks like
+	case "error-timeout", "error-canceled", "error-canceled-bare", "error-deadline-bare":
+		// a failed list is fatal whatever the error value looks like - also when
+		// it is, or wraps, a context error that is not the caller's own cancellation
 		call.Outcome = "error"
-		return nil, fmt.Errorf("%w: %v", ErrInjectedList, &url.Error{Op: "Get", URL: "https://apiserver/list", Err: context.DeadlineExceeded})
+		return nil, ListErrorOf(script)
 	case "nonlist":
 		call.Outcome = "nonlist"
 		return Build(s.Kind, Spec{NS: "x", Name: "notalist", RV: rv}), nil
